@@ -287,4 +287,5 @@ def run(ctx):
   ctx.floor("RAISE-guard", "calls on the parsers' cursor of methods that always raise for a class the cursor can hold", nfr, 1)
   for prod, ref in (("ttconv.srt.writer:SrtContext.add_isd", "ttconv.srt.paragraph:SrtParagraph.to_string"), ("ttconv.vtt.writer:VttContext.add_isd", "ttconv.vtt.cue:VttCue.to_string")):
     shape.check_interval_resolution(ctx, ctx.ix.func(prod), ctx.ix.func(ref))
+  common.check_item_handlers(ctx, common.READERS)
   common.check_history_independence(ctx, MODS)
